@@ -284,7 +284,7 @@ def _bounded():
                 '250 (quick) / 4000 (thorough) random programs of 2-5 commands [maildir: the first 140 / 1200]; an observer '
                 'connection dumps every mailbox before and after every command; oracle = the statement of C04 '
                 '(harness/e2e_uids.py)',
-                bounded_uids('C04', bk), decisive=False) for bk in ('dict', 'maildir++', 'maildirfs')] + [
+                bounded_uids('C04', bk), decisive=True) for bk in ('dict', 'maildir++', 'maildirfs')] + [
         Bounded('a name made anew never gets a UIDVALIDITY it had before (real server)',
                 'INBOX renamed away 3000 times (thorough 20000) and a mailbox deleted and created again 3000 times on the dict '
                 'backend, 250 (2500) times on each maildir layout, one APPEND into every generation: no two generations of a '
@@ -298,7 +298,7 @@ PROPERTY = Property(
     registry=REG, bounded=_bounded(),
     structural=[Structural('NoYieldUnderLock', no_yield_under_lock),
                 Structural('mutators_covered', mutators_covered)],
-    level='proof', design_ref='6 C04',
+    level='other', design_ref='6 C04',
     trusted_base=['asyncio cooperative scheduling (a coroutine is atomic between suspensions)',
                   'model of Message.__init__/Message.copy (fresh object with the given uid)',
                   'weak contracts of _ModSequenceMapping.update/expunge (frame only; proved in C02)'],
